@@ -15,7 +15,7 @@ Differs(exp, ov, ow) ==
     \/ Len(exp) # Len(ov)
     \/ \E k \in 1..Len(ov) : exp[k] # WDC /\ Norm(exp[k], ow[k]) # Norm(ov[k], ow[k])
 
-Expected(t, row) == WideRef(t.kind, t.c, SubSeq(row, 1, Len(t.iw)), t.iw, t.ow)
+Expected(t, row) == WideRefA(t.kind, t.c, SubSeq(row, 1, Len(t.iw)), t.iw, t.ow)
 RowBad(t, row) == Differs(Expected(t, row), SubSeq(row, Len(t.iw) + 1, Len(row)), t.ow)
 Constrained(t, row) == \E k \in 1..Len(t.ow) : Expected(t, row)[k] # WDC
 
